@@ -1,6 +1,7 @@
 /-
 C19 — temperature and proposal-scale schedules stay within their documented envelopes.
-Property theorems only (helper lemmas are private).  Models: `Model/Anneal.lean`, `Model/StdAdapt.lean`.
+Property theorems only (helper lemmas are private).  Models: `Model/Anneal.lean`, `Model/StdAdapt.lean`,
+`Model/FitLoop.lean` (Part 3: how the fit / personalisation loops compose the schedules; reuses `Model/Saem.lean`).
 
 All theorems are over an arbitrary ordered field `α` (so they hold for `ℚ` and `ℝ`): exact arithmetic.
 Floating-point rounding is not modelled (the driver runs the same definitions on IEEE numbers and the
@@ -8,6 +9,7 @@ harness compares them bit for bit with the python objects).
 -/
 import LeaspyVerif.Model.Anneal
 import LeaspyVerif.Model.StdAdapt
+import LeaspyVerif.Model.FitLoop
 import Mathlib.Algebra.Order.Field.Basic
 import Mathlib.Tactic.Ring
 import Mathlib.Tactic.Linarith
@@ -693,6 +695,375 @@ theorem trace_spec (p : Params α) (b : Blk α) (accs : List Bool) :
     ×11/10; then rejected twice → below the band → ×9/10; a half-accepted window is above as well. -/
 example : Blk.trace (Params.ofFactor 2 (1/5 : Rat) (2/5) (1/10)) (Blk.init (Params.ofFactor 2 (1/5 : Rat) (2/5) (1/10)) 1)
     [true, true, false, false, true, false] = [1, 11/10, 11/10, 99/100, 99/100, 1089/1000] := by
+  decide +kernel
+
+/-! ## Part 3 — fit loop composition
+
+How the schedules of Part 1 (temperature) and of C05 (`Model/Saem.lean`: burn-in flag, memory-less test) are
+*composed* by the two sampler-driven loops, `Model/FitLoop.lean`: `TensorMcmcSaemAlgorithm._run/_iteration`
+and the loop of `McmcPersonalizeAlgorithm._get_individual_parameters`. -/
+
+open LeaspyVerif.FitLoop LeaspyVerif.Saem
+
+private theorem iter_succ_of (c : Anneal.Config α) (clamp : Bool) (s0 s : St α) (k : Nat)
+    (hk : iter c clamp s0 k = .ok s) : iter c clamp s0 (k + 1) = update c clamp (k + 1) s := by
+  simp only [iter, hk]; rfl
+
+/-- `runFrom` started in the annealing state of iteration `k` succeeds and lists, for every later iteration,
+    the events built from the annealing states before and after that iteration. -/
+private theorem runFrom_spec (c : FitLoop.Config α) (clamp : Bool) (order : Nat → List Nat) (s0 : St α)
+    (h0 : init c.anneal = .ok s0) :
+    ∀ (n k : Nat) (s : St α), iter c.anneal clamp s0 k = .ok s →
+      ∃ L, FitLoop.runFrom c clamp order k n s = .ok L ∧ L.length = n ∧
+        ∀ i, i < n → ∃ s₁ s₂, iter c.anneal clamp s0 (k + i) = .ok s₁ ∧
+          iter c.anneal clamp s0 (k + i + 1) = .ok s₂ ∧
+          L[i]? = some (iterationEvents c.kind c.nBurn (order (k + i + 1)) (k + i + 1) s₁ s₂) := by
+  intro n
+  induction n with
+  | zero => intro k s _; exact ⟨[], rfl, rfl, fun i hi => absurd hi (Nat.not_lt_zero i)⟩
+  | succ n ih =>
+    intro k s hk
+    obtain ⟨s', hs'⟩ := accepted_runs_to_completion c.anneal clamp s0 h0 (k + 1)
+    have hstep : update c.anneal clamp (k + 1) s = .ok s' := by
+      rw [← iter_succ_of c.anneal clamp s0 s k hk]; exact hs'
+    obtain ⟨l, hl, hlen, hget⟩ := ih (k + 1) s' hs'
+    refine ⟨iterationEvents c.kind c.nBurn (order (k + 1)) (k + 1) s s' :: l, ?_, by simp [hlen], ?_⟩
+    · simp only [FitLoop.runFrom, FitLoop.iteration, hstep, hl]
+    · intro i hi
+      cases i with
+      | zero => exact ⟨s, s', by simpa using hk, by simpa using hs', by simp⟩
+      | succ i =>
+        obtain ⟨s₁, s₂, h1, h2, h3⟩ := hget i (by omega)
+        have e : k + (i + 1) = k + 1 + i := by omega
+        rw [e]
+        exact ⟨s₁, s₂, h1, h2, by simpa using h3⟩
+
+/-- **Composition of one run** (fit or personalisation; any number of iterations, burn-in count, latent
+    variables, sampling orders; every configuration accepted by `_initialize_annealing`): the run goes through
+    all its `n_iter` iterations, and the events of iteration `k` are, in this order,
+    one `sample` call per entry of `order k` — each with `temperature_inv = 1 / T_{k-1}` —, then the
+    maximisation step (fit: memory-less flag `Saem.memoryless k n_burn`, burn-in flag `Saem.isBurnIn k n_burn`;
+    personalisation: keep the draws iff not burn-in), then `_update_temperature`, which leaves `T_k`;
+    where `T_j` is the temperature of the C19 schedule after `j` updates (`Anneal.iter`). -/
+theorem loop_run_spec (c : FitLoop.Config α) (clamp : Bool) (order : Nat → List Nat) (s0 : St α)
+    (h0 : init c.anneal = .ok s0) :
+    ∃ L, FitLoop.run c clamp order = .ok L ∧ L.length = c.nIter ∧
+      ∀ k, 1 ≤ k → k ≤ c.nIter → ∃ s s', iter c.anneal clamp s0 (k - 1) = .ok s ∧
+        iter c.anneal clamp s0 k = .ok s' ∧
+        L[k - 1]? = some ((order k).map (fun v => Event.sample v (1 / s.temp))
+          ++ [FitLoop.middle c.kind c.nBurn k, Event.updateT s'.temp]) := by
+  obtain ⟨L, hL, hlen, hget⟩ := runFrom_spec c clamp order s0 h0 c.nIter 0 s0 rfl
+  refine ⟨L, by simp only [FitLoop.run, h0, hL], hlen, ?_⟩
+  intro k hk1 hk
+  obtain ⟨s₁, s₂, h1, h2, h3⟩ := hget (k - 1) (by omega)
+  have e1 : 0 + (k - 1) = k - 1 := by omega
+  have e2 : 0 + (k - 1) + 1 = k := by omega
+  rw [e1] at h1
+  rw [e2] at h2 h3
+  exact ⟨s₁, s₂, h1, h2, by rw [h3]; rfl⟩
+
+/-- what `loop_run_spec` gives for a run whose result is already named -/
+private theorem loop_at (c : FitLoop.Config α) (clamp : Bool) (order : Nat → List Nat) (s0 : St α)
+    (h0 : init c.anneal = .ok s0) (L : List (List (Event α))) (hL : FitLoop.run c clamp order = .ok L)
+    (k : Nat) (hk1 : 1 ≤ k) (hk : k ≤ c.nIter) :
+    ∃ s s', iter c.anneal clamp s0 (k - 1) = .ok s ∧ iter c.anneal clamp s0 k = .ok s' ∧
+      L[k - 1]? = some ((order k).map (fun v => Event.sample v (1 / s.temp))
+        ++ [FitLoop.middle c.kind c.nBurn k, Event.updateT s'.temp]) := by
+  obtain ⟨L', hL', _, hget⟩ := loop_run_spec c clamp order s0 h0
+  rw [hL] at hL'
+  injection hL' with hL'
+  subst hL'
+  exact hget k hk1 hk
+
+private theorem middle_not_sample (kind : Kind) (nb k : Nat) :
+    (FitLoop.middle kind nb k : Event α).isSample = false := by
+  cases kind <;> rfl
+
+private theorem sampleTinvs_events (kind : Kind) (nb k : Nat) (ord : List Nat) (t T : α) :
+    sampleTinvs (ord.map (fun v => Event.sample v t) ++ [FitLoop.middle kind nb k, Event.updateT T])
+      = ord.map (fun _ => t) := by
+  induction ord with
+  | nil => cases kind <;> rfl
+  | cons v ord ih => simp only [List.map_cons, List.cons_append, sampleTinvs, ih]
+
+private theorem sampleVars_events (kind : Kind) (nb k : Nat) (ord : List Nat) (t T : α) :
+    sampleVars (ord.map (fun v => Event.sample v t) ++ [FitLoop.middle kind nb k, Event.updateT T])
+      = ord := by
+  induction ord with
+  | nil => cases kind <;> rfl
+  | cons v ord ih => simp only [List.map_cons, List.cons_append, sampleVars, ih]
+
+/-- **(a)** At iteration `k` every sampler receives exactly `1 / T_{k-1}`: the inverse of the temperature
+    after `k − 1` updates of the schedule. -/
+theorem samplers_receive_previous_temperature (c : FitLoop.Config α) (clamp : Bool)
+    (order : Nat → List Nat) (s0 : St α) (h0 : init c.anneal = .ok s0)
+    (L : List (List (Event α))) (hL : FitLoop.run c clamp order = .ok L)
+    (k : Nat) (hk1 : 1 ≤ k) (hk : k ≤ c.nIter) :
+    ∃ s evs, iter c.anneal clamp s0 (k - 1) = .ok s ∧ L[k - 1]? = some evs ∧
+      (sampleTinvs evs).length = (order k).length ∧ ∀ t ∈ sampleTinvs evs, t = 1 / s.temp := by
+  obtain ⟨s, s', h1, _, h3⟩ := loop_at c clamp order s0 h0 L hL k hk1 hk
+  refine ⟨s, _, h1, h3, ?_, ?_⟩
+  · rw [sampleTinvs_events]; simp
+  · intro t ht
+    rw [sampleTinvs_events] at ht
+    simp only [List.mem_map] at ht
+    obtain ⟨_, _, rfl⟩ := ht
+    rfl
+
+/-- … so the first iteration samples at the configured initial temperature (annealing on), and the
+    temperature is moved only after the maximisation step: the last event of iteration `k` is the update
+    that leaves `T_k`, the event before it is the maximisation step. -/
+theorem first_iteration_samples_at_initial_temperature (c : FitLoop.Config α) (clamp : Bool)
+    (order : Nat → List Nat) (s0 : St α) (h0 : init c.anneal = .ok s0) (hon : c.anneal.on = true)
+    (L : List (List (Event α))) (hL : FitLoop.run c clamp order = .ok L) (hn : 1 ≤ c.nIter) :
+    ∃ evs, L[0]? = some evs ∧ ∀ t ∈ sampleTinvs evs, t = 1 / c.anneal.t0 := by
+  obtain ⟨s, evs, h1, h2, _, h4⟩ := samplers_receive_previous_temperature c clamp order s0 h0 L hL 1 (le_refl 1) hn
+  obtain ⟨s', hs', ht⟩ := temp_start c.anneal clamp s0 h0 hon
+  have : s = s' := by
+    have e : iter c.anneal clamp s0 (1 - 1) = iter c.anneal clamp s0 0 := rfl
+    rw [e, hs'] at h1; injection h1 with h1; exact h1.symm
+  subst this
+  exact ⟨evs, h2, fun t ht' => by rw [h4 t ht', ht]⟩
+
+/-- **(b1)** The inverse temperature seen by the samplers lies in `(0, 1]`
+    (the range over which C03 quantifies). -/
+theorem sampler_tinv_in_unit_interval (c : FitLoop.Config α) (clamp : Bool)
+    (order : Nat → List Nat) (s0 : St α) (h0 : init c.anneal = .ok s0)
+    (L : List (List (Event α))) (hL : FitLoop.run c clamp order = .ok L)
+    (k : Nat) (hk1 : 1 ≤ k) (hk : k ≤ c.nIter) (evs : List (Event α)) (he : L[k - 1]? = some evs)
+    (t : α) (ht : t ∈ sampleTinvs evs) : 0 < t ∧ t ≤ 1 := by
+  obtain ⟨s, evs', h1, h2, _, h4⟩ := samplers_receive_previous_temperature c clamp order s0 h0 L hL k hk1 hk
+  rw [he] at h2; injection h2 with h2; subst h2
+  have hT : 1 ≤ s.temp := temp_ge_one c.anneal clamp s0 s h0 (k - 1) h1
+  have hpos : (0 : α) < s.temp := by linarith
+  rw [h4 t ht]
+  exact ⟨one_div_pos.mpr hpos, (div_le_one hpos).mpr hT⟩
+
+/-- **(b2)** … it never decreases along the run. -/
+theorem sampler_tinv_monotone (c : FitLoop.Config α) (clamp : Bool)
+    (order : Nat → List Nat) (s0 : St α) (h0 : init c.anneal = .ok s0)
+    (L : List (List (Event α))) (hL : FitLoop.run c clamp order = .ok L)
+    (k m : Nat) (hk1 : 1 ≤ k) (hkm : k ≤ m) (hm : m ≤ c.nIter)
+    (evs evs' : List (Event α)) (he : L[k - 1]? = some evs) (he' : L[m - 1]? = some evs')
+    (t t' : α) (ht : t ∈ sampleTinvs evs) (ht' : t' ∈ sampleTinvs evs') : t ≤ t' := by
+  obtain ⟨s, e1, h1, h2, _, h4⟩ := samplers_receive_previous_temperature c clamp order s0 h0 L hL k hk1 (by omega)
+  obtain ⟨s', e2, h1', h2', _, h4'⟩ := samplers_receive_previous_temperature c clamp order s0 h0 L hL m (by omega) hm
+  rw [he] at h2; injection h2 with h2; subst h2
+  rw [he'] at h2'; injection h2' with h2'; subst h2'
+  rw [h4 t ht, h4' t' ht']
+  have hle : s'.temp ≤ s.temp := temp_antitone_le c.anneal clamp s0 s s' h0 (k - 1) (m - 1) (by omega) h1 h1'
+  have hpos : (0 : α) < s'.temp := by
+    have := temp_ge_one c.anneal clamp s0 s' h0 (m - 1) h1'
+    linarith
+  exact one_div_le_one_div_of_le hpos hle
+
+/-
+Full-strength statement of the last clause of (b):
+
+    sampler_tinv_one_after_annealing : … c.anneal.on = true → c.anneal.nAnneal < k → t = 1
+
+It is false of the code for `n_plateau = 1` (finding F5b, see `temp_one_after_counterexample` and
+`sampler_tinv_one_after_annealing_counterexample`).  Proved under the exact guard `2 ≤ n_plateau`
+already carried by `temp_one_after_partial`; nothing else is missing.
+-/
+
+/-- **(b3)** … and it is exactly 1 at every iteration after the annealing iterations (`n_plateau ≥ 2`). -/
+theorem sampler_tinv_one_after_annealing_partial (c : FitLoop.Config α) (clamp : Bool)
+    (order : Nat → List Nat) (s0 : St α) (h0 : init c.anneal = .ok s0)
+    (hon : c.anneal.on = true) (hP : 2 ≤ c.anneal.nPlateau)
+    (L : List (List (Event α))) (hL : FitLoop.run c clamp order = .ok L)
+    (k : Nat) (hk1 : 1 ≤ k) (hk : k ≤ c.nIter) (hover : c.anneal.nAnneal < (k : Int))
+    (evs : List (Event α)) (he : L[k - 1]? = some evs)
+    (t : α) (ht : t ∈ sampleTinvs evs) : t = 1 := by
+  obtain ⟨s, evs', h1, h2, _, h4⟩ := samplers_receive_previous_temperature c clamp order s0 h0 L hL k hk1 hk
+  rw [he] at h2; injection h2 with h2; subst h2
+  have hT : s.temp = 1 := temp_one_after_partial c.anneal clamp s0 s h0 hon hP (k - 1) h1 (by omega)
+  rw [h4 t ht, hT]; simp
+
+/-- Without annealing every sampler call of every iteration receives exactly 1. -/
+theorem sampler_tinv_one_without_annealing (c : FitLoop.Config α) (clamp : Bool)
+    (order : Nat → List Nat) (hoff : c.anneal.on = false)
+    (L : List (List (Event α))) (hL : FitLoop.run c clamp order = .ok L)
+    (k : Nat) (hk1 : 1 ≤ k) (hk : k ≤ c.nIter)
+    (evs : List (Event α)) (he : L[k - 1]? = some evs)
+    (t : α) (ht : t ∈ sampleTinvs evs) : t = 1 := by
+  obtain ⟨s0, s1, h0, hs1, hT⟩ := no_anneal_const_one c.anneal clamp hoff (k - 1)
+  obtain ⟨s, evs', h1, h2, _, h4⟩ := samplers_receive_previous_temperature c clamp order s0 h0 L hL k hk1 hk
+  rw [he] at h2; injection h2 with h2; subst h2
+  rw [hs1] at h1; injection h1 with h1; subst h1
+  rw [h4 t ht, hT]; simp
+
+/-- Finding F5b seen from the samplers: `n_plateau = 1`, `T0 = 5`, 3 annealing iterations — at iteration 6
+    the (single) sampler still receives `1/5`. -/
+theorem sampler_tinv_one_after_annealing_counterexample :
+    ∃ (c : FitLoop.Config Rat) (L : List (List (Event Rat))) (evs : List (Event Rat)),
+      c.anneal.on = true ∧ FitLoop.run c true (fun _ => [0]) = .ok L ∧ c.anneal.nAnneal < 6 ∧
+      L[5]? = some evs ∧ sampleTinvs evs = [1 / 5] := by
+  refine ⟨⟨.fit, 6, 0, ⟨true, 5, 1, 3⟩, 1⟩,
+    [.sample 0 (1 / 5), .mstep true false, .updateT 5]
+      :: List.replicate 5 [.sample 0 (1 / 5), .mstep false false, .updateT 5],
+    [.sample 0 (1 / 5), .mstep false false, .updateT 5], rfl, ?_, by decide, ?_, ?_⟩
+  · decide +kernel
+  · decide +kernel
+  · decide +kernel
+
+/-- **(c)** Shape of every iteration: exactly one sampler call per latent variable (the calls come first and
+    are a permutation of the variables), then exactly one maximisation step (personalisation: one
+    keep-the-draws decision), then exactly one temperature update, and nothing else. -/
+theorem one_call_each_per_iteration (c : FitLoop.Config α) (clamp : Bool)
+    (order : Nat → List Nat) (hord : ValidOrder c order) (s0 : St α) (h0 : init c.anneal = .ok s0)
+    (L : List (List (Event α))) (hL : FitLoop.run c clamp order = .ok L)
+    (k : Nat) (hk1 : 1 ≤ k) (hk : k ≤ c.nIter) :
+    ∃ evs, L[k - 1]? = some evs ∧ evs.length = c.nVars + 2 ∧
+      sampleVars evs = order k ∧ (∀ v, (sampleVars evs).count v = if v < c.nVars then 1 else 0) ∧
+      (∀ i, i < c.nVars → ∃ e, evs[i]? = some e ∧ e.isSample = true) ∧
+      (∃ e, evs[c.nVars]? = some e ∧ e.isMiddle = true) ∧
+      (∃ e, evs[c.nVars + 1]? = some e ∧ e.isUpdateT = true) ∧
+      (evs.filter Event.isSample).length = c.nVars ∧
+      (evs.filter Event.isMiddle).length = 1 ∧ (evs.filter Event.isUpdateT).length = 1 := by
+  obtain ⟨s, s', _, _, h3⟩ := loop_at c clamp order s0 h0 L hL k hk1 hk
+  have hperm := hord k
+  have hlen : (order k).length = c.nVars := by rw [hperm.length_eq]; simp
+  refine ⟨_, h3, ?_, sampleVars_events _ _ _ _ _ _, ?_, ?_, ?_, ?_, ?_, ?_, ?_⟩
+  · simp [hlen]
+  · intro v
+    rw [sampleVars_events, hperm.count_eq, List.count_range]
+  · intro i hi
+    refine ⟨Event.sample ((order k)[i]'(by omega)) (1 / s.temp), ?_, rfl⟩
+    rw [List.getElem?_append_left (by simp; omega)]
+    simp [List.getElem?_map, List.getElem?_eq_getElem (by omega : i < (order k).length)]
+  · refine ⟨FitLoop.middle c.kind c.nBurn k, ?_, by cases c.kind <;> rfl⟩
+    rw [List.getElem?_append_right (by simp [hlen])]
+    simp [hlen]
+  · refine ⟨Event.updateT s'.temp, ?_, rfl⟩
+    rw [List.getElem?_append_right (by simp [hlen])]
+    simp [hlen]
+  · rw [List.filter_append]
+    have h1 : ((order k).map (fun v => Event.sample v (1 / s.temp))).filter Event.isSample
+        = (order k).map (fun v => Event.sample v (1 / s.temp)) := by
+      rw [List.filter_eq_self]; intro e he; simp only [List.mem_map] at he; obtain ⟨_, _, rfl⟩ := he; rfl
+    rw [h1]
+    cases c.kind <;> simp [FitLoop.middle, Event.isSample, hlen]
+  · rw [List.filter_append]
+    have h1 : ((order k).map (fun v => Event.sample v (1 / s.temp))).filter Event.isMiddle = [] := by
+      rw [List.filter_eq_nil_iff]; intro e he; simp only [List.mem_map] at he; obtain ⟨_, _, rfl⟩ := he; simp [Event.isMiddle]
+    rw [h1]
+    cases c.kind <;> rfl
+  · rw [List.filter_append]
+    have h1 : ((order k).map (fun v => Event.sample v (1 / s.temp))).filter Event.isUpdateT = [] := by
+      rw [List.filter_eq_nil_iff]; intro e he; simp only [List.mem_map] at he; obtain ⟨_, _, rfl⟩ := he; simp [Event.isUpdateT]
+    rw [h1]
+    cases c.kind <;> rfl
+
+/-- **(d)** The maximisation step of iteration `k` of a fit is told `burn_in = true` iff `k ≤ n_burn` and hands
+    the current statistics to the maximisation (memory-less) iff `k ≤ n_burn + 1`; its two flags are C05's
+    `Saem.isBurnIn` / `Saem.memoryless`, so the statistics it uses are `Saem.stepStats` (by definition). -/
+theorem mstep_flags (c : FitLoop.Config α) (clamp : Bool)
+    (order : Nat → List Nat) (hord : ValidOrder c order) (s0 : St α) (h0 : init c.anneal = .ok s0)
+    (hfit : c.kind = .fit)
+    (L : List (List (Event α))) (hL : FitLoop.run c clamp order = .ok L)
+    (k : Nat) (hk1 : 1 ≤ k) (hk : k ≤ c.nIter) :
+    ∃ evs ml burn, L[k - 1]? = some evs ∧ evs[c.nVars]? = some (Event.mstep ml burn) ∧
+      ml = Saem.memoryless k c.nBurn ∧ burn = Saem.isBurnIn k c.nBurn ∧
+      (burn = true ↔ k ≤ c.nBurn) ∧ (ml = true ↔ k ≤ c.nBurn + 1) ∧
+      (∀ (e : Nat → α) (prev cur : α), Saem.stepStats e c.nBurn k prev cur
+          = if ml then cur else prev * (1 - e (k - c.nBurn)) + e (k - c.nBurn) * cur) := by
+  obtain ⟨s, s', _, _, h3⟩ := loop_at c clamp order s0 h0 L hL k hk1 hk
+  have hlen : (order k).length = c.nVars := by rw [(hord k).length_eq]; simp
+  refine ⟨_, Saem.memoryless k c.nBurn, Saem.isBurnIn k c.nBurn, h3, ?_, rfl, rfl, ?_, ?_, fun _ _ _ => rfl⟩
+  · rw [List.getElem?_append_right (by simp [hlen])]
+    simp [hlen, hfit, FitLoop.middle]
+  · simp [Saem.isBurnIn]
+  · simp only [Saem.memoryless, Saem.isBurnIn, Bool.or_eq_true, decide_eq_true_eq, beq_iff_eq]
+    omega
+
+/-- **(e1)** Personalisation loop: the draws of iteration `k` are kept iff `k > n_burn`. -/
+theorem personalize_keeps_iff (c : FitLoop.Config α) (clamp : Bool)
+    (order : Nat → List Nat) (hord : ValidOrder c order) (s0 : St α) (h0 : init c.anneal = .ok s0)
+    (hpers : c.kind = .personalize)
+    (L : List (List (Event α))) (hL : FitLoop.run c clamp order = .ok L)
+    (k : Nat) (hk1 : 1 ≤ k) (hk : k ≤ c.nIter) :
+    ∃ evs kept, L[k - 1]? = some evs ∧ evs[c.nVars]? = some (Event.keep kept) ∧
+      (kept = true ↔ c.nBurn < k) ∧ (evs.any Event.isKept = kept) := by
+  obtain ⟨s, s', _, _, h3⟩ := loop_at c clamp order s0 h0 L hL k hk1 hk
+  have hlen : (order k).length = c.nVars := by rw [(hord k).length_eq]; simp
+  refine ⟨_, !Saem.isBurnIn k c.nBurn, h3, ?_, ?_, ?_⟩
+  · rw [List.getElem?_append_right (by simp [hlen])]
+    simp [hlen, hpers, FitLoop.middle]
+  · simp [Saem.isBurnIn]
+  · simp [hpers, FitLoop.middle, Event.isKept, List.any_append]
+
+private theorem any_isKept_events (kind : Kind) (nb k : Nat) (ord : List Nat) (t T : α) :
+    (ord.map (fun v => Event.sample v t) ++ [FitLoop.middle kind nb k, Event.updateT T]).any Event.isKept
+      = (match kind with | .fit => false | .personalize => !Saem.isBurnIn k nb) := by
+  cases kind <;> simp [FitLoop.middle, Event.isKept, List.any_append]
+
+private theorem keptCount_runFrom (c : FitLoop.Config α) (clamp : Bool) (order : Nat → List Nat)
+    (hpers : c.kind = .personalize) :
+    ∀ (n k : Nat) (s : St α) (L : List (List (Event α))),
+      FitLoop.runFrom c clamp order k n s = .ok L → keptCount L = (k + n) - max k c.nBurn := by
+  intro n
+  induction n with
+  | zero =>
+    intro k s L h
+    simp only [FitLoop.runFrom] at h
+    injection h with h; subst h
+    simp [keptCount]
+  | succ n ih =>
+    intro k s L h
+    simp only [FitLoop.runFrom, FitLoop.iteration] at h
+    cases hu : update c.anneal clamp (k + 1) s with
+    | error e => rw [hu] at h; cases h
+    | ok s' =>
+      rw [hu] at h
+      simp only at h
+      cases hr : FitLoop.runFrom c clamp order (k + 1) n s' with
+      | error e => rw [hr] at h; cases h
+      | ok rest =>
+        rw [hr] at h
+        injection h with h; subst h
+        have hrest := ih (k + 1) s' rest hr
+        have hany : (iterationEvents c.kind c.nBurn (order (k + 1)) (k + 1) s s').any Event.isKept
+            = !Saem.isBurnIn (k + 1) c.nBurn := by
+          simp only [iterationEvents, tinv]; rw [any_isKept_events, hpers]
+        unfold keptCount at hrest ⊢
+        rw [List.filter_cons]
+        simp only [hany]
+        by_cases hb : k + 1 ≤ c.nBurn
+        · simp only [Saem.isBurnIn, hb, decide_true, Bool.not_true, Bool.false_eq_true, if_false]
+          rw [hrest]; omega
+        · simp only [Saem.isBurnIn, hb, decide_false, Bool.not_false, if_true, List.length_cons]
+          rw [hrest]; omega
+
+/-- **(e2)** … so a personalisation run keeps exactly `n_iter − n_burn` draws (none when `n_burn ≥ n_iter`). -/
+theorem personalize_kept_count (c : FitLoop.Config α) (clamp : Bool) (order : Nat → List Nat)
+    (hpers : c.kind = .personalize)
+    (L : List (List (Event α))) (hL : FitLoop.run c clamp order = .ok L) :
+    keptCount L = c.nIter - c.nBurn := by
+  unfold FitLoop.run at hL
+  cases hi : init c.anneal with
+  | error e => rw [hi] at hL; cases hL
+  | ok s0 =>
+    rw [hi] at hL
+    have := keptCount_runFrom c clamp order hpers c.nIter 0 s0 L hL
+    rw [this]; omega
+
+/-- Non-vacuity: a fit of 5 iterations, 2 latent variables, burn-in 2, `T0 = 3`, 3 plateaus over 4 annealing
+    iterations (period 2, decrement 1).  Iteration 1 samples at `1/3` and the temperature moves after the
+    maximisation step of iterations 2 and 4; iterations 1–2 are burn-in, 1–3 memory-less. -/
+example : FitLoop.run (⟨.fit, 5, 2, ⟨true, 3, 3, 4⟩, 2⟩ : FitLoop.Config Rat) true
+      (fun k => if k % 2 = 0 then [1, 0] else [0, 1]) = .ok
+    [[.sample 0 (1/3), .sample 1 (1/3), .mstep true true, .updateT 3],
+     [.sample 1 (1/3), .sample 0 (1/3), .mstep true true, .updateT 2],
+     [.sample 0 (1/2), .sample 1 (1/2), .mstep true false, .updateT 2],
+     [.sample 1 (1/2), .sample 0 (1/2), .mstep false false, .updateT 1],
+     [.sample 0 1, .sample 1 1, .mstep false false, .updateT 1]] := by
+  decide +kernel
+
+/-- Non-vacuity (personalisation, 4 iterations, burn-in 1, no annealing): draws kept at iterations 2–4. -/
+example : FitLoop.run (⟨.personalize, 4, 1, ⟨false, 10, 10, 0⟩, 1⟩ : FitLoop.Config Rat) true (fun _ => [0]) = .ok
+    [[.sample 0 1, .keep false, .updateT 1], [.sample 0 1, .keep true, .updateT 1],
+     [.sample 0 1, .keep true, .updateT 1], [.sample 0 1, .keep true, .updateT 1]] := by
   decide +kernel
 
 end LeaspyVerif.C19
